@@ -16,13 +16,18 @@ MANIFEST = dict(
           "M/MX/MY/MR*/MPP flips only the reported bit (Kraus operator = projection on the true outcome). The tables are "
           "translated from channels.py, the fragments from instructions.py, on every run. Whole circuits: the Coq model's exact "
           "mixture is compared with the real sampler's exact mixture (channel pushforward x forced sampling) and the reference "
-          "simulator on generated noisy circuits incl. one-hot arguments of the 3/15-argument channels. Composition not proved."),
+          "simulator on generated noisy circuits incl. one-hot arguments of the 3/15-argument channels. Composition: proved for circuits of "
+          "gates, (noisy) single-qubit measurements, resets and single-qubit Pauli channels on registers of any size, for every bit "
+          "assignment and every probability argument (C02_circuit_dense); two-qubit channels, chains and MPP noise at fragment level."),
     note=("Trusted: as C01; additionally translate/channel_tables.py, the hand model of correlated_error_probs (fingerprint-pinned), "
-          "float64 exactness of dyadic test probabilities. Print Assumptions: closed under the global context."),
+          "float64 exactness of dyadic test probabilities. Print Assumptions: closed under the global context, except "
+          "functional_extensionality_dep (standard library) for C02_circuit_dense."),
     technique="Coq proofs (finite vm_compute tables, symbolic table entries, induction over chain length) + executable circuit model vs exact sampler mixture",
     design_ref="DESIGN.md 4.C02",
 )
-COQ_FILES = MODEL_FILES + ["Props/C02.v"]
+COQ_FILES = MODEL_FILES + ["Base/Amp.v", "Model/KrausCheck.v", "Proofs/CircuitProofs.v", "Proofs/CircuitTheorem.v", "Proofs/BitIdx.v",
+                          "Proofs/DenseBridge.v", "Proofs/KrausSem.v", "Proofs/KrausLocal.v", "Proofs/KrausTheorem.v", "Proofs/KrausGates.v",
+                          "Proofs/KrausCircuit.v", "Props/C02.v"]
 
 
 def run(ctx: Ctx) -> int:
